@@ -342,6 +342,9 @@ def run_check(prop, a, bdir, seed, t0):
             if j.status in ("ok", "failed"):
                 k = driver.Job(j.unit, j.name + "#2", j.entry, j.enforce, j.replace, j.files, j.defines, rec=j.rec, props=j.props, kind=j.kind, unwind=j.unwind)
                 k.incdirs, k.kf, k.first = j.incdirs, j.kf, j
+                k.contract, k.timeout, k.unwind_fns = getattr(j, "contract", None), getattr(j, "timeout", None), getattr(j, "unwind_fns", None)
+                if getattr(j, "is_full", False):
+                    k.is_full = True
                 second.append(k)
         by_inc = {}
         for j in second:
@@ -359,6 +362,20 @@ def run_check(prop, a, bdir, seed, t0):
                 else:
                     undecided.append("back ends disagree on %s: %s=%s %s=%s" % (j.name, j.backend, j.status, k.backend, k.status))
 
+    crosschecks = []
+    sweep_failed = []
+    if a.tier == "thorough":
+        # bounded cross-check on the REAL code (never counted as proof): the unit's native small-universe sweep
+        for uname in units:
+            hook = replay.unit_hook(uname)
+            if hook is not None and getattr(hook, "THOROUGH_SWEEP", False):
+                dev, detail = hook.native_sweep("thorough", bdir)
+                crosschecks.append({"unit": uname, "kind": "bounded", "what": getattr(hook, "SWEEP_BOUND", "native small-universe sweep of the real code"),
+                                    "deviation_found": bool(dev), "detail": detail})
+                if "build_error" in detail or detail.get("exit") in (-9, 2):
+                    undecided.append("native sweep of %s did not run: %s" % (uname, str(detail)[:300]))
+                elif dev:
+                    sweep_failed.append((uname, detail))
     violations = []
     known_lines = []
     for j in jobs:
@@ -398,8 +415,15 @@ def run_check(prop, a, bdir, seed, t0):
             seen.add(key)
             print("UNDECIDED property=%s reason=%s" % (prop, u.replace("\n", " ")[:900]))
         rc = 2
+    for uname, detail in sweep_failed:
+        os.makedirs(os.path.join(VERIF, "replays"), exist_ok=True)
+        path = os.path.join(VERIF, "replays", "%s_%s_native_sweep.json" % (prop, uname))
+        json.dump({"property": prop, "unit": uname, "job": "native sweep (bounded cross-check of the real code)", "reproduced_on_real_code": True,
+                   "native_sweep": detail, "verdict": "the real library deviates from the reference written from the property text on the printed input"}, open(path, "w"), indent=1)
+        print("VIOLATION property=%s replay=%s" % (prop, path))
+        rc = 1
     write_evidence(prop, a.tier, seed, t0, jobs, units, tags_by_unit, undecided=undecided,
-                   violations=len(violations), known_lines=known_lines, src=src)
+                   violations=len(violations) + len(sweep_failed), known_lines=known_lines, src=src, crosschecks=crosschecks)
     if rc == 0:
         n = sum(len(getattr(j, "obligations", [])) for j in jobs if not getattr(j, "is_full", False))
         print("OK property=%s tier=%s functions=%d obligations=%d all discharged (%.0fs)" % (
@@ -407,7 +431,7 @@ def run_check(prop, a, bdir, seed, t0):
     return rc
 
 
-def write_evidence(prop, tier, seed, t0, jobs, units, tags, undecided=(), violations=0, known_lines=(), src=None):
+def write_evidence(prop, tier, seed, t0, jobs, units, tags, undecided=(), violations=0, known_lines=(), src=None, crosschecks=()):
     os.makedirs(os.path.join(VERIF, "evidence"), exist_ok=True)
     main_jobs = [j for j in jobs if not getattr(j, "is_full", False)]
     obligations = sum(len(getattr(j, "obligations", [])) for j in main_jobs)
@@ -434,6 +458,8 @@ def write_evidence(prop, tier, seed, t0, jobs, units, tags, undecided=(), violat
                        "seconds": round(j.seconds, 2), "obligations": len(getattr(j, "obligations", [])),
                        "discharged": len([r for r in getattr(j, "obligations", []) if r["status"] == "SUCCESS"]),
                        "replaced_callee_contracts": j.replace,
+                       "unwind": (("loops unwound %d times with unwinding assertions (bounded by the declaration model)" % j.unwind) if j.unwind else "no: loop contracts / loop-free"),
+                       "contract": getattr(j, "contract", None) or j.enforce,
                        "canaries_reached": [c["desc"] for c in getattr(j, "canaries", []) if c["status"] == "FAILURE"],
                        **({"second_backend": j.second_backend} if hasattr(j, "second_backend") else {})})
     cmd = ""
@@ -448,7 +474,7 @@ def write_evidence(prop, tier, seed, t0, jobs, units, tags, undecided=(), violat
             "obligations": obligations, "discharged": discharged,
             "checker_cmd": cmd or "goto-cc | goto-instrument --dfcc | cbmc (no job ran)",
             "trusted_base": trusted + ["CBMC 6.11.0, goto-instrument DFCC, SAT back ends (cadical, kissat, minisat)"],
-            "explanation": "CBMC code contracts enforced per function with goto-instrument --dfcc on C text extracted mechanically from /repo on this run; loops closed by loop contracts; callees replaced by their contracts; lemma harnesses connect function contracts to the property statement.",
+            "explanation": "CBMC code contracts enforced per function with goto-instrument --dfcc on C text extracted mechanically from /repo on this run; loops closed by loop contracts - except jobs marked "unwind": their loops run over a declared bound (array size of the declaration model, NITRO_K/NITRO_G/NITRO_NARGS) and are unwound completely with --unwinding-assertions; callees replaced by their contracts; lemma harnesses connect function contracts to the property statement.",
             "functions_under_contract": [j.name for j in main_jobs if j.kind == "function"],
             "lemma_harnesses": [j.name for j in main_jobs if j.kind == "lemma"],
             "jobs": per_fn,
@@ -457,7 +483,7 @@ def write_evidence(prop, tier, seed, t0, jobs, units, tags, undecided=(), violat
             "source_digests": (src.digests if src else {}),
             "assumption_scan": scan,
             "static_facts": facts,
-            "bounded_crosschecks": [],
+            "bounded_crosschecks": list(crosschecks),
             "known_findings_reported": list(known_lines),
             "undecided": list(undecided),
             "solver_seconds_total": round(sum(j.seconds for j in jobs), 1),
